@@ -16,8 +16,8 @@ use ckb_types::{
     prelude::{Entity, IntoHeaderView, Unpack},
 };
 use ckb_verification::{
-    CapacityVerifier, NonContextualTransactionVerifier, ScriptVerifier, Since, SinceMetric,
-    TimeRelativeTransactionVerifier, TransactionError,
+    CapacityVerifier, DaoScriptSizeVerifier, NonContextualTransactionVerifier, ScriptVerifier,
+    Since, SinceMetric, TimeRelativeTransactionVerifier, TransactionError,
 };
 
 use ckb_traits::{HeaderFieldsProvider, HeaderProvider};
@@ -160,8 +160,17 @@ pub fn verify_tx(
         }
     }
     let tx_env = TxVerifyEnv::new_submit(&tip_header);
-    ContextualTransactionVerifier::new(Arc::new(rtx), Arc::clone(&consensus), swc, Arc::new(tx_env))
-        .verify(consensus.max_block_cycles())
+    let rtx = Arc::new(rtx);
+    let cycles = ContextualTransactionVerifier::new(
+        Arc::clone(&rtx),
+        Arc::clone(&consensus),
+        swc,
+        Arc::new(tx_env),
+    )
+    .verify(consensus.max_block_cycles())?;
+    // The full nodes run this verifier in the tx-pool and in the block verification too.
+    DaoScriptSizeVerifier::new(rtx, consensus, swc.clone()).verify()?;
+    Ok(cycles)
 }
 
 fn resolve_tx(
